@@ -257,7 +257,7 @@ func parseAtom(lex *lexer.PeekingLexer) (Expression, error) {
 			NodeMeta: nodeMetaFromPosition(tok.Pos),
 		}
 		if err := i.Value.UnmarshalText([]byte(tok.Value)); err != nil {
-			return nil, err
+			return nil, participle.Errorf(tok.Pos, "invalid integer literal '%s'", tok.Value)
 		}
 		return &i, nil
 	case TokenTypeFloat:
